@@ -1,0 +1,156 @@
+//go:build verif
+
+package ssh
+
+// Verification hooks for property C29 (key exchange). Add-only: with the verif tag
+// off this file is not compiled. Nothing here re-implements protocol logic: the
+// halves are the kexAlgoMap entries, run through handshakeTransport.client /
+// handshakeTransport.server exactly as enterKeyExchange does, over a packetConn
+// supplied by the check.
+
+import (
+	"crypto"
+	"errors"
+	"io"
+	"math/big"
+	"net"
+	"sort"
+)
+
+// VerifC29PacketConn is the packet transport the check supplies.
+type VerifC29PacketConn interface {
+	WritePacket(p []byte) error
+	ReadPacket() ([]byte, error)
+}
+
+// verifC29Conn adapts a VerifC29PacketConn to keyingTransport.
+type verifC29Conn struct{ c VerifC29PacketConn }
+
+func (a verifC29Conn) writePacket(p []byte) error                               { return a.c.WritePacket(p) }
+func (a verifC29Conn) readPacket() ([]byte, error)                              { return a.c.ReadPacket() }
+func (a verifC29Conn) Close() error                                             { return nil }
+func (a verifC29Conn) prepareKeyChange(*NegotiatedAlgorithms, *kexResult) error { return nil }
+func (a verifC29Conn) setStrictMode() error                                     { return nil }
+func (a verifC29Conn) setInitialKEXDone()                                       {}
+
+// VerifC29Result is a kexResult as returned by a kexAlgorithm half.
+type VerifC29Result struct {
+	H, K, HostKey, Signature []byte
+	Hash                     crypto.Hash
+}
+
+func verifC29Result(r *kexResult) *VerifC29Result {
+	if r == nil {
+		return nil
+	}
+	return &VerifC29Result{H: r.H, K: r.K, HostKey: r.HostKey, Signature: r.Signature, Hash: r.Hash}
+}
+
+// VerifC29Magics are the four transcript strings V_C, V_S, I_C, I_S.
+type VerifC29Magics struct {
+	ClientVersion, ServerVersion, ClientKexInit, ServerKexInit []byte
+}
+
+func (m VerifC29Magics) magics() *handshakeMagics {
+	return &handshakeMagics{clientVersion: m.ClientVersion, serverVersion: m.ServerVersion,
+		clientKexInit: m.ClientKexInit, serverKexInit: m.ServerKexInit}
+}
+
+// VerifC29KexNames lists every entry of kexAlgoMap, sorted.
+func VerifC29KexNames() []string {
+	var out []string
+	for name := range kexAlgoMap {
+		out = append(out, name)
+	}
+	sort.Strings(out)
+	return out
+}
+
+// verifC29Recorder delegates to the real kexAlgorithm and keeps what it returned, so
+// that one run yields both the raw kex outcome and the verdict of the surrounding
+// handshakeTransport.client / .server code.
+type verifC29Recorder struct {
+	kex    kexAlgorithm
+	called bool
+	res    *kexResult
+	err    error
+}
+
+func (r *verifC29Recorder) Client(p packetConn, rand io.Reader, magics *handshakeMagics) (*kexResult, error) {
+	r.called = true
+	r.res, r.err = r.kex.Client(p, rand, magics)
+	return r.res, r.err
+}
+
+func (r *verifC29Recorder) Server(p packetConn, rand io.Reader, magics *handshakeMagics, s AlgorithmSigner, algo string) (*kexResult, error) {
+	r.called = true
+	r.res, r.err = r.kex.Server(p, rand, magics, s, algo)
+	return r.res, r.err
+}
+
+// VerifC29ClientOutcome is what one client-side key exchange produced.
+type VerifC29ClientOutcome struct {
+	// Kex is the result of kexAlgoMap[name].Client (nil if it failed), KexErr its error.
+	Kex    *VerifC29Result
+	KexErr error
+	// AcceptErr is the error of handshakeTransport.client, i.e. kex + ParsePublicKey +
+	// verifyHostKeySignature + HostKeyCallback. nil means the client accepted the exchange.
+	AcceptErr error
+	// CallbackKey is the marshaled key handed to the HostKeyCallback (nil if not called).
+	CallbackKey []byte
+}
+
+// VerifC29Client runs the client half of key exchange `name` through
+// handshakeTransport.client with negotiated host key algorithm hostKeyAlgo.
+func VerifC29Client(name string, conn VerifC29PacketConn, rand io.Reader, m VerifC29Magics, hostKeyAlgo string) (*VerifC29ClientOutcome, error) {
+	kex, ok := kexAlgoMap[name]
+	if !ok {
+		return nil, errors.New("verif: no such kex")
+	}
+	out := &VerifC29ClientOutcome{}
+	t := &handshakeTransport{
+		conn:       verifC29Conn{conn},
+		config:     &Config{Rand: rand},
+		algorithms: &NegotiatedAlgorithms{KeyExchange: name, HostKey: hostKeyAlgo},
+		hostKeyCallback: func(hostname string, remote net.Addr, key PublicKey) error {
+			out.CallbackKey = key.Marshal()
+			return nil
+		},
+	}
+	rec := &verifC29Recorder{kex: kex}
+	_, out.AcceptErr = t.client(rec, m.magics())
+	out.Kex, out.KexErr = verifC29Result(rec.res), rec.err
+	if !rec.called {
+		return nil, errors.New("verif: kex not invoked")
+	}
+	return out, nil
+}
+
+// VerifC29ServerOutcome is what one server-side key exchange produced.
+type VerifC29ServerOutcome struct {
+	Kex *VerifC29Result
+	Err error
+}
+
+// VerifC29Server runs the server half of key exchange `name` through
+// handshakeTransport.server (pickHostKey + kex.Server) with the given host keys.
+func VerifC29Server(name string, conn VerifC29PacketConn, rand io.Reader, m VerifC29Magics, hostKeys []Signer, hostKeyAlgo string) (*VerifC29ServerOutcome, error) {
+	kex, ok := kexAlgoMap[name]
+	if !ok {
+		return nil, errors.New("verif: no such kex")
+	}
+	t := &handshakeTransport{
+		conn:       verifC29Conn{conn},
+		config:     &Config{Rand: rand},
+		algorithms: &NegotiatedAlgorithms{KeyExchange: name, HostKey: hostKeyAlgo},
+		hostKeys:   hostKeys,
+	}
+	rec := &verifC29Recorder{kex: kex}
+	res, err := t.server(rec, m.magics())
+	return &VerifC29ServerOutcome{Kex: verifC29Result(res), Err: err}, nil
+}
+
+// VerifC29ChooseDH is chooseDH.
+func VerifC29ChooseDH(min, preferred, max uint32) (*big.Int, error) {
+	return chooseDH(kexDHGexRequestMsg{MinBits: min, PreferredBits: preferred, MaxBits: max})
+}
